@@ -506,10 +506,14 @@ impl Stack {
     pub fn delete_variable_local(&mut self, name: &str) -> Result<PrimitiveFlagsPair> {
         let frame = self.0.last_mut().expect("no stack frame");
 
-        frame.variables.0.remove(name).ok_or(anyhow!(
-            "{name} has not been mapped at this scope, and cannot be deleted (existing: {:?})",
-            frame.variables.0
-        ))
+        // build the message only when the lookup fails, and only from the names: the values can be
+        // arbitrarily large and even cyclic (a function stored in the variable it captured)
+        frame.variables.0.remove(name).ok_or_else(|| {
+            anyhow!(
+                "{name} has not been mapped at this scope, and cannot be deleted (existing: {:?})",
+                frame.variables.0.keys().collect::<Vec<_>>()
+            )
+        })
     }
 
     /// Add a `name -> variable` mapping to the current stack frame, with special flags.
